@@ -56,6 +56,7 @@ type msgSpec struct {
 	ValNil  bool
 	Headers []sarama.RecordHeader
 	Ts      time.Time
+	Bare    bool // neither key, value nor headers: the record carries no identifier (C04 only; judged by position)
 	PauseUs int
 	Sub     int // submitting goroutine
 }
@@ -829,7 +830,14 @@ func containsMsg(ms []*sarama.ProducerMessage, m *sarama.ProducerMessage) bool {
 // msgIDFromRecord extracts the message id a record carries ("<id>:" prefix of
 // the value, or of the key when the value is nil/empty).
 func msgIDFromRecord(r sarama.VRec) (int, bool) {
-	for _, b := range [][]byte{r.Value, r.Key} {
+	cands := [][]byte{r.Value, r.Key}
+	for _, h := range r.Headers {
+		// messages without key and value carry their id in a header named "vid"
+		if string(h.Key) == "vid" {
+			cands = append(cands, h.Value)
+		}
+	}
+	for _, b := range cands {
 		if i := bytes.IndexByte(b, ':'); i > 0 && i <= 9 {
 			if id, err := strconv.Atoi(string(b[:i])); err == nil {
 				return id, true
